@@ -1,5 +1,6 @@
 import Noodles.Bgzf.ReaderModel
 import Noodles.Bgzf.ReaderProof
+import Noodles.Props.C02w
 /-!
 # C02 — BGZF virtual positions name bytes: tell / seek / gzi are mutually consistent
 
